@@ -255,8 +255,11 @@ def gxx(path_base, text):
     return (exe if r.returncode == 0 else None), r.stdout
 
 
-def run_exe(exe, ks, timeout=600):
-    """-> (results {(k, t, w): value}, problems {k: (w, text)})"""
+def run_exe(exe, ks, timeout=60):
+    """-> (results {(k, t, w): value}, problems {k: (w, text)})
+    The generated programs finish within a few thousand interpreter steps (microseconds of native code); the watchdog
+    is > 1000x the time of a whole TU and only ever fires for a *printed* program that lost its loop exit (the original
+    text runs first in the same process; a watchdog hit while the original runs is inconclusive, never a failure)."""
     results, problems = {}, {}
     start = -1
     pending = sorted(ks)
@@ -297,7 +300,7 @@ def run_exe(exe, ks, timeout=600):
 TIMES = {"occa": 0.0, "g++": 0.0, "run": 0.0, "generate": 0.0, "reduce": 0.0}
 
 
-def judge(worker, wd, tag, items, lock=None):
+def judge(worker, wd, tag, items, lock=None, o2_mode="full"):
     """-> list of verdict dicts {"status": ok|fail|rejected|inconclusive, "kind", "what"}"""
     t_ = time.time()
     answers = worker.batch([("q%d" % i, it["src"]) for i, it in enumerate(items)])
@@ -335,7 +338,16 @@ def judge(worker, wd, tag, items, lock=None):
                            "what": "printing is not idempotent: " + first_diff(a["P1"], a["P2"])}
         entries.append((i, it, a["P1"]))
     if entries:
-        o2 = semantic(wd, tag, entries)
+        if o2_mode == "full":
+            o2 = semantic(wd, tag, entries)
+        else:
+            # reduction of an O1 failure: only make sure that the candidate is still a program g++ accepts
+            o2 = {}
+            for i, it, printed in entries:
+                eo, lo = gxx(os.path.join(wd, "tu_%s_o%d" % (tag, i)),
+                             "namespace o_%d {\n%s\n}\nint main() { return 0; }\n" % (i, it["src"]))
+                o2[i] = ({"status": "ok", "kind": "", "what": ""} if eo else
+                         {"status": "inconclusive", "kind": "generator", "what": "g++ rejects the ORIGINAL text"})
         for i, v in o2.items():
             if verdicts[i] is None or (verdicts[i]["status"] == "ok"):
                 verdicts[i] = v
@@ -796,12 +808,13 @@ def run(prop, tier, replay, t0):
         for ci, (kind, fl) in enumerate(sorted(bykind.items())):
             it, v = fl[0]
             d = it["desc"]
-            if ci < 3:
+            if ci < 3 and not (kind == "printed-misbehaves" and "did not finish" in v["what"]):
                 cnt = [0]
 
                 def still_fails(cand, kind=kind):
                     cnt[0] += 1
-                    vv = judge(wr, wd, "red%d_%d" % (ci, cnt[0]), [make_item(cand)])[0]
+                    mode = "orig-compiles" if kind in ("reparse", "structure", "idempotence", "crash") else "full"
+                    vv = judge(wr, wd, "red%d_%d" % (ci, cnt[0]), [make_item(cand)], o2_mode=mode)[0]
                     # the reduced program must stay a valid C program (g++ accepts and runs the original text)
                     return vv["status"] == "fail" and vv["kind"] == kind and vv.get("o2") != "inconclusive:generator"
                 t_ = time.time()
